@@ -142,14 +142,20 @@ type chainOp struct {
 }
 
 type chainModel struct {
-	Cache map[string]string // state key -> "yes" | "maybe"
-	Taint map[string]bool
+	Cache  map[string]string // state key -> "yes" | "maybe"
+	Taint  map[string]bool
+	Failed map[string]bool // targets whose most recent execution failed (a failure must leave no cache entry)
 }
 
 func (m chainModel) clone() chainModel {
-	n := chainModel{Cache: map[string]string{}, Taint: map[string]bool{}}
+	n := chainModel{Cache: map[string]string{}, Taint: map[string]bool{}, Failed: map[string]bool{}}
 	for k, v := range m.Cache {
 		n.Cache[k] = v
+	}
+	for k, v := range m.Failed {
+		if v {
+			n.Failed[k] = true
+		}
 	}
 	for k, v := range m.Taint {
 		if v {
@@ -175,7 +181,18 @@ func (n *cnode) key() string {
 		ts = append(ts, k)
 	}
 	sort.Strings(ts)
-	return n.boxKey + "|" + n.st.key() + "|" + strings.Join(ts, ",")
+	// the reference model is part of the state: two histories that leave the same bytes on disk but
+	// differ in what the model knows (e.g. "this state was cached" vs "its last execution failed")
+	// must not be merged, otherwise exactly the defects that make them look alike are never expanded
+	var ms []string
+	for k, v := range n.model.Cache {
+		ms = append(ms, k+"="+v)
+	}
+	for k := range n.model.Failed {
+		ms = append(ms, "failed:"+k)
+	}
+	sort.Strings(ms)
+	return n.boxKey + "|" + n.st.key() + "|" + strings.Join(ts, ",") + "|" + strings.Join(ms, ";")
 }
 
 type chainEngine struct {
@@ -296,6 +313,7 @@ func (e *chainEngine) predict(st chainState, m *chainModel, cacheDisabled bool) 
 			if pred[t] == "run" {
 				failed = append(failed, t)
 				upFailed[t] = true
+				m.Failed[t] = true
 			} else {
 				// unknown whether it runs: no prediction for everything downstream
 				pred[t] = "?"
@@ -316,6 +334,7 @@ func (e *chainEngine) predict(st chainState, m *chainModel, cacheDisabled bool) 
 				m.Cache[k] = "yes"
 			}
 			delete(m.Taint, t)
+			delete(m.Failed, t)
 		} else if pred[t] == "?" {
 			m.Cache[k] = "maybe"
 		}
@@ -455,6 +474,9 @@ func (e *chainEngine) doOp(n *cnode, op chainOp) *cnode {
 		}
 		return k
 	}
+	if os.Getenv("VERIF_DEBUG") != "" {
+		vc.Logf("DEBUG %v | marks=%v | pred=%v failed=%v | executed=%s exit=%d", histNow, n.st.Marks, pred, failed, fmtSet(executed), rr.Exit)
+	}
 	unexpectedFailure := len(failed) == 0 && rr.Exit != 0
 	for _, t := range chainTargets {
 		p := pred[t]
@@ -478,7 +500,8 @@ func (e *chainEngine) doOp(n *cnode, op chainOp) *cnode {
 			case "failing-output-check":
 				sig = "C14:cached-result-served-although-output-check-fails://p:" + t
 			}
-			if r == "no-cached-result" && len(n.hist) > 0 && strings.Contains(strings.Join(n.hist, ">"), "mark fail") {
+			if r == "no-cached-result" && n.model.Failed[t] {
+				// its last execution failed: the failure must not have left a cache entry
 				sig = "C05:failed-target-not-attempted-again://p:" + t
 			}
 			if !strings.HasPrefix(sig, "C14:") && !strings.HasPrefix(sig, "C13:") {
@@ -617,7 +640,7 @@ func (e *chainEngine) run() {
 				e.c.R.BrokenCheck("scratch: %v", err)
 				return
 			}
-			start := &cnode{box: root, st: chainState{Marks: map[string]bool{}, NoCachePos: nc, Queue: uni.Queue, Minimal: uni.Minimal}, model: chainModel{Cache: map[string]string{}, Taint: map[string]bool{}}}
+			start := &cnode{box: root, st: chainState{Marks: map[string]bool{}, NoCachePos: nc, Queue: uni.Queue, Minimal: uni.Minimal}, model: chainModel{Cache: map[string]string{}, Taint: map[string]bool{}, Failed: map[string]bool{}}}
 			start.boxKey = chainBoxKey(root)
 			seen := map[string]bool{start.key(): true}
 			frontier := []*cnode{start}
@@ -781,7 +804,7 @@ func init() {
 	Registry["C14"] = func(c *Ctx) {
 		c.R.Rule = "breadth-first search over histories of <= n operations from {destroy / break the externally checked condition of //p:w, make //p:y exit non-zero | exceed its timeout | not create its declared output, edit, grog build} by the REAL binary; reference model: success is reported and cached only if exit 0 within the timeout, outputs exist and checks pass; a cached result with a now-failing output check forces execution; a check still failing after execution fails the build and caches nothing (the follow-up build attempts the target again). Non-trivial = a build that executed some but not all targets."
 		c.R.Assume("the checked condition is an external marker outside the declared inputs/outputs", "timeout mode uses timeout=1s against a 30 s sleep; wall-clock enters only through grog's own timeout handling, never through the oracle")
-		chainCheck("C14", []string{"C14:", "C05:failed-target-not-attempted-again"}, 4, 5, func(e *chainEngine, thorough bool) {
+		chainCheck("C14", []string{"C14:", "C05:failed-target-not-attempted-again"}, 5, 6, func(e *chainEngine, thorough bool) {
 			e.universes = []chainState{{}, {Minimal: true}}
 			e.ops = []chainOp{markOp("w-destroyed"), markOp("w-broken"), markOp("fail-y-exit"), markOp("fail-y-noout"), opEditFirst, opBuild}
 			if thorough {
